@@ -271,9 +271,10 @@ class Netlist(NetlistOpsMixin, NetlistMixin, NetlistSimplifyMixin):
 
         if cpt.name in self._elements:
             warn('Overriding component %s' % cpt.name)
-            # Need to search lists and update component.
-            # For example, remove nodes that are only connected
-            # to this component.
+            # Detach the component being replaced from its nodes.
+            old = self._elements[cpt.name]
+            for node in old.nodes:
+                node.remove(old)
         else:
             # Check that this name won't conflict with an attr.
             # For example, cannot have name V or I.  Perhaps
